@@ -89,3 +89,102 @@ pub fn basic(user: &str, pass: &str) -> String {
     use base64::Engine;
     format!("Basic {}", base64::prelude::BASE64_STANDARD.encode(format!("{}:{}", user, pass)))
 }
+
+/// One WebSocket connection on the same port: upgrade (with the optional Authorization header), one text frame out,
+/// then every text frame that arrives until the reply to a trailing sentinel read (id 4099) has been seen.
+/// Returns (http status of the upgrade, frames other than the sentinel's reply).
+pub fn ws_exchange(port: u16, body: &str, auth: Option<&str>, expect_reply: bool) -> Result<(u16, Vec<String>), String> {
+    let mut s = TcpStream::connect(("127.0.0.1", port)).map_err(|e| e.to_string())?;
+    s.set_read_timeout(Some(Duration::from_secs(20))).ok();
+    let mut req = format!(
+        "GET / HTTP/1.1\r\nHost: 127.0.0.1:{}\r\nUpgrade: websocket\r\nConnection: Upgrade\r\nSec-WebSocket-Key: dGhlIHNhbXBsZSBub25jZQ==\r\nSec-WebSocket-Version: 13\r\n",
+        port
+    );
+    if let Some(a) = auth {
+        req.push_str(&format!("Authorization: {}\r\n", a));
+    }
+    req.push_str("\r\n");
+    s.write_all(req.as_bytes()).map_err(|e| e.to_string())?;
+    // response head
+    let mut head = Vec::new();
+    let mut b = [0u8; 1];
+    while !head.ends_with(b"\r\n\r\n") {
+        let n = s.read(&mut b).map_err(|e| e.to_string())?;
+        if n == 0 {
+            break;
+        }
+        head.push(b[0]);
+        if head.len() > 16384 {
+            break;
+        }
+    }
+    let head = String::from_utf8_lossy(&head).to_string();
+    let status: u16 = head.split_whitespace().nth(1).and_then(|x| x.parse().ok()).unwrap_or(0);
+    if status != 101 {
+        return Ok((status, vec![]));
+    }
+    let send = |s: &mut TcpStream, text: &str| -> Result<(), String> {
+        let payload = text.as_bytes();
+        let mut f = vec![0x81u8];
+        let mask = [0x12u8, 0x34, 0x56, 0x78];
+        if payload.len() < 126 {
+            f.push(0x80 | payload.len() as u8);
+        } else if payload.len() < 65536 {
+            f.push(0x80 | 126);
+            f.extend_from_slice(&(payload.len() as u16).to_be_bytes());
+        } else {
+            f.push(0x80 | 127);
+            f.extend_from_slice(&(payload.len() as u64).to_be_bytes());
+        }
+        f.extend_from_slice(&mask);
+        f.extend(payload.iter().enumerate().map(|(i, x)| x ^ mask[i % 4]));
+        s.write_all(&f).map_err(|e| e.to_string())
+    };
+    send(&mut s, body)?;
+    std::thread::sleep(Duration::from_millis(5));
+    send(&mut s, r#"{"jsonrpc":"2.0","id":4099,"method":"eth_chainId","params":[]}"#)?;
+    let mut frames = Vec::new();
+    let mut sentinel_seen = false;
+    loop {
+        let mut h = [0u8; 2];
+        if s.read_exact(&mut h).is_err() {
+            break;
+        }
+        let op = h[0] & 0x0f;
+        let mut len = (h[1] & 0x7f) as u64;
+        if len == 126 {
+            let mut e = [0u8; 2];
+            s.read_exact(&mut e).map_err(|e| e.to_string())?;
+            len = u16::from_be_bytes(e) as u64;
+        } else if len == 127 {
+            let mut e = [0u8; 8];
+            s.read_exact(&mut e).map_err(|e| e.to_string())?;
+            len = u64::from_be_bytes(e);
+        }
+        let mut payload = vec![0u8; len as usize];
+        s.read_exact(&mut payload).map_err(|e| e.to_string())?;
+        match op {
+            1 => {
+                let t = String::from_utf8_lossy(&payload).to_string();
+                if t.contains("\"id\":4099") {
+                    sentinel_seen = true;
+                    if !frames.is_empty() {
+                        break;
+                    }
+                    if !expect_reply {
+                        // a reply nobody should send gets a short grace period to show up
+                        s.set_read_timeout(Some(Duration::from_millis(30))).ok();
+                    }
+                } else {
+                    frames.push(t);
+                    if sentinel_seen {
+                        break;
+                    }
+                }
+            }
+            8 => break,
+            _ => {}
+        }
+    }
+    Ok((status, frames))
+}
